@@ -79,6 +79,8 @@ def lib_call(fn, *a, **kw):
     except MemoryError:
         raise
     except Exception as e:  # noqa
+        if type(e).__name__ == "NonFinite":      # harness signal (float overflow), not a library outcome
+            raise
         return False, LibError(e)
 
 
